@@ -32,6 +32,7 @@ type c06Spec struct {
 	LWord  []float64 `json:"lword,omitempty"` // series mode: one level per word day
 	Lat    float64   `json:"lat,omitempty"`   // latitude (0 = default 52.52); polar sites use a sunshine-hours column
 	Long   *lwSpec   `json:"long,omitempty"`  // a long world (long.go) instead of words
+	TBase  *float64  `json:"tbase,omitempty"` // configured annual mean temperature (lower boundary of the soil temperature)
 }
 
 func repeatWord(w []string, rep int) []string {
@@ -105,6 +106,22 @@ func c06Specs(tier string, seed int) []c06Spec {
 					}
 					out = append(out, c06Spec{Base: b, GWMode: "const", Alpha: []string{"calm-dark", "no-sun-no-rad", "frost", "drizzle"}, D: 2, Lat: lat})
 				}
+			}
+		}
+	}
+	// sites with a cold, freezing-point and hot annual mean temperature (configuration value): mineral and peat soils
+	for _, tb := range []float64{-3.5, 0, 27} {
+		tb := tb
+		for _, so := range []string{"peat12", "peat5", "loam12", "clay20"} {
+			for _, crop := range []string{"", "SW"} {
+				b := e1Base{Soil: so, GW: 99, InitW: 0.8, InitN: 30, Crop: crop, ET: 3}
+				if crop != "" {
+					b.WarmUp = 30
+				}
+				if so == "peat12" {
+					b.GW = 8
+				}
+				out = append(out, c06Spec{Base: b, GWMode: "const", Alpha: []string{"frost", "deep-frost", "dry-hot-windy", "heavy"}, D: 3, TBase: &tb})
 			}
 		}
 	}
@@ -411,6 +428,9 @@ func c06Run(raw json.RawMessage, c *mc.Ctx) {
 	ndays := 2 + warm + nword
 	p := e1Project(sp.Base, ndays)
 	p.Config["OutputIntervall"] = "1"
+	if sp.TBase != nil {
+		p.Config["AnnualAverageTemperature"] = fmt.Sprint(*sp.TBase)
+	}
 	if sp.Lat != 0 {
 		p.Config["Latitude"] = fmt.Sprint(sp.Lat)
 		p.SunColumn = true
